@@ -830,7 +830,13 @@ func (h *fsHandler) handleRequest(c context.Context, ctx *RequestContext) {
 		// There is no need to check for '/../' if path = ctx.Path(),
 		// since ctx.Path must normalize and sanitize the path.
 
-		if n := bytes.Index(path, bytestr.StrSlashDotDotSlash); n >= 0 {
+		n := bytes.Index(path, bytestr.StrSlashDotDotSlash)
+		if n < 0 && bytes.HasSuffix(path, bytestr.StrSlashDotDotSlash[:3]) {
+			// a last segment of ".." (the trailing slashes are stripped above, so "/../" at
+			// the end arrives here as "/..")
+			n = len(path) - 3
+		}
+		if n >= 0 {
 			hlog.SystemLogger().Errorf("Cannot serve path with '/../' at position=%d due to security reasons, path=%q", n, path)
 			ctx.AbortWithMsg("Internal Server Error", consts.StatusInternalServerError)
 			return
